@@ -189,6 +189,25 @@ pub fn cmd_trace(args: &[String]) {
                 Err(p) => { writeln!(out, "{}", json!({"ev": "panic", "e": name, "v": [], "panic": p})).unwrap(); break; }
             }
         }
+        // the process forks: whatever state a generator keeps in memory is now in two processes; the values the child returns
+        // and the values the parent returns afterwards belong to one history (Rng.tla: Fork changes nothing, Draw stays strict)
+        if cost == 0 {
+            out.flush().unwrap();
+            let tmp = format!("{}.fork", args[0]);
+            let pid = unsafe { libc::fork() };
+            if pid == 0 {
+                let mut lines = String::new();
+                for _ in 0..3 { if let Ok(v) = catch(|| f()) { lines.push_str(&format!("{}\n", json!({"ev": "draw", "e": name, "v": v, "process": "child"}))); } }
+                std::fs::write(&tmp, lines).ok();
+                unsafe { libc::_exit(0) };
+            }
+            let mut st = 0;
+            unsafe { libc::waitpid(pid, &mut st, 0) };
+            writeln!(out, "{}", json!({"ev": "fork", "e": name, "v": []})).unwrap();
+            for _ in 0..3 { if let Ok(v) = catch(|| f()) { writeln!(out, "{}", json!({"ev": "draw", "e": name, "v": v, "process": "parent"})).unwrap(); } }
+            if let Ok(txt) = std::fs::read_to_string(&tmp) { out.write_all(txt.as_bytes()).unwrap(); }
+            std::fs::remove_file(&tmp).ok();
+        }
         writeln!(out, "{}", json!({"ev": "done", "e": name, "v": []})).unwrap();
     }
     // the OS random source fails (seccomp filter in a forked child): a call may fail, a returned value must be fresh
